@@ -262,8 +262,15 @@ def language_rule(prog, run, R="R6"):
         b = u.bodies[f]
         e = sym.expr_local(b, 0)
 
+        next_bbs = sorted({y[4] for y in sym.walk(e) if isinstance(y, tuple) and y[:1] == ("call",) and len(y) > 4 and str(y[1]).endswith("::next")})
+
         def ev(x, cs):
             h = x[0]
+            if h == "call" and str(x[1]).endswith("::next") and len(x) > 4 and x[4] in next_bbs:
+                # successive `chars.next()` calls (straight-line code): the k-th call in program order yields the k-th character
+                seq = ev(x[2][0], cs)
+                k_ = next_bbs.index(x[4])
+                return ("some", seq[k_]) if k_ < len(seq) else ("none",)
             if h == "const":
                 v = x[1]
                 return v if isinstance(v, int) else (ord(v.strip("'")) if isinstance(v, str) and len(v.strip("'")) == 1 else None)
@@ -276,7 +283,8 @@ def language_rule(prog, run, R="R6"):
                 return v & 0xFFFF if x[3] == "u16" else (v & 0xFF if x[3] == "u8" else v)
             if h == "bin":
                 a, c = ev(x[2], cs), ev(x[3], cs)
-                return {"BitAnd": a & c, "BitOr": a | c, "Shl": (a << c) & 0xFFFF, "Shr": a >> c, "Add": a + c, "Sub": a - c, "BitXor": a ^ c}[x[1]]
+                return {"BitAnd": a & c, "BitOr": a | c, "Shl": (a << c) & 0xFFFF, "Shr": a >> c, "Add": a + c, "Sub": a - c, "BitXor": a ^ c, "Mul": a * c,
+                        "AddWithOverflow": a + c, "SubWithOverflow": a - c, "MulWithOverflow": a * c}[x[1]]
             if h == "proj":
                 return ev(x[1], cs)
             if h == "call":
@@ -339,7 +347,7 @@ def check(prog, run):
         run.bad("R1", "anchor", "user-data builder not found")
         return
     try:
-        segs = it.production(f)
+        segs = L.norm_segs(it.production(f))
     except L.Unanalysable as e:
         run.bad("R1", "unanalysable", str(e))
         return
@@ -357,7 +365,7 @@ def check(prog, run):
     run.check(paths == want, "R1", "tree", "/".join(want[-1:]) and "udta>meta>hdlr,ilst>(c)nam>data,(c)day>data", "user-data tree is %s" % paths)
     ilst = [b for p, b, c in boxes if p[-1] == b"ilst"]
     if ilst:
-        same = L.strip_ids(L.freeze(list(ilst[0][2]))) == L.strip_ids(L.freeze(tested))
+        same = L.strip_ids(L.freeze(L.norm_segs(list(ilst[0][2])))) == L.strip_ids(L.freeze(L.norm_segs(tested)))
         run.check(same, "R1", "emptiness-of-the-items", "the emptiness test is on exactly the item list that is emitted", "udta presence is decided on something other than the emitted item list")
         items = ilst[0][2]
         shape_ok = len(items) == 2 and all(s[0] == "alt" and s[3] == [] for s in items)
